@@ -639,6 +639,7 @@ func (fr *Frame) alloc(st *State, pc T, t types.Type, hint string, zero bool) T 
 	vc := fr.vc
 	a := vc.fresh("a", SortRef)
 	vc.facts = append(vc.facts, "(assert (and (not (= "+a+" "+BV(0, 64)+")) (not "+Sel(st.alive, a)+")))")
+	vc.noteFresh(a)
 	st.alive = vc.define("alive", SortArr(SortRef, SortBool), Sto(st.alive, a, True))
 	fr.freshNotInGhostSets(st, t, a)
 	fr.allocNested(st, t, a, 0)
@@ -703,6 +704,17 @@ func (fr *Frame) freshNotInGhostSets(st *State, t types.Type, ref T) {
 	}
 }
 
+// noteFresh records a freshly allocated reference and tells the solver it differs from all earlier ones
+// (the allocation facts themselves are simplified syntactically, so this is stated explicitly).
+func (vc *VC) noteFresh(ref T) {
+	if len(vc.freshRefs) > 0 {
+		if len(vc.freshRefs) <= 400 {
+			vc.facts = append(vc.facts, "(assert (distinct "+ref+" "+strings.Join(vc.freshRefs, " ")+"))")
+		}
+	}
+	vc.freshRefs = append(vc.freshRefs, ref)
+}
+
 // allocNested: by-value nested structs and arrays of a fresh object are fresh too.
 func (fr *Frame) allocNested(st *State, t types.Type, ref T, depth int) {
 	vc := fr.vc
@@ -715,7 +727,11 @@ func (fr *Frame) allocNested(st *State, t types.Type, ref T, depth int) {
 		switch f.Type().Underlying().(type) {
 		case *types.Struct, *types.Array:
 			sub := vc.subRef(t, f.Name(), ref)
+			if f.Name() == "_" {
+				continue // blank fields (sync/atomic's noCopy/align64) have no identity of their own
+			}
 			vc.facts = append(vc.facts, "(assert (not "+Sel(st.alive, sub)+"))")
+			vc.noteFresh(sub)
 			st.alive = vc.define("alive", SortArr(SortRef, SortBool), Sto(st.alive, sub, True))
 			fr.freshNotInGhostSets(st, f.Type(), sub)
 			fr.allocNested(st, f.Type(), sub, depth+1)
